@@ -759,3 +759,145 @@ def run_pure(am: AM, events, seed_ctx=None):
     if threading.active_count() != threads0:
         problems.append("pure calls started a thread")
     return snaps, problems
+
+
+# --------------------------------------------------------------------------
+# snapshot / restore runs (K-snap, property C12)
+# --------------------------------------------------------------------------
+
+def flat_snapshot_dict(am: AM, d):
+    ids = am.index_by_id()
+    out = [TS("status"), TN(STATUS.get(d.get("status"), 9)), TS("ctx")]
+    for v in range(4):
+        out.append(TZ((d.get("context") or {}).get("v%d" % v, 0)))
+    out.append(TS("cfg"))
+    out += [TN(ids[i]) for i in d.get("configuration", [])]
+    out.append(TS("output"))
+    out += [TS("none")] if d.get("output") is None else [TZ(d["output"])]
+    out.append(TS("hist"))
+    hist = {ids[p]: [ids[x] for x in l] for p, l in (d.get("history") or {}).items() if l}
+    for p in sorted(hist):
+        out += [TN(p), TS("[")] + [TN(x) for x in hist[p]] + [TS("]")]
+    return out
+
+
+def run_restored(am: AM, engine, events, k, seed_ctx=None):
+    """Run the first k operations, snapshot, restore into a FRESH interpreter over a freshly built machine, continue
+    on both.  Returns dict(restored=[token lists], original=[token lists], problems=[...])."""
+    import copy
+    import json as _json
+    from xstate_statemachine import create_machine, SyncInterpreter, Interpreter
+    problems = []
+    recA, recB = Rec(am), Rec(am)
+    hA = attach_log_handler(recA)
+    out = dict(restored=[], original=[], problems=problems)
+    cls = SyncInterpreter if engine == "sync" else Interpreter
+
+    async def amain():
+        mA = create_machine(am.to_config(), logic=build_logic(am, recA, engine))
+        index_transitions(am, mA, recA)
+        A = cls(mA)
+        if seed_ctx:
+            A.context.update(seed_ctx)
+        instrument(A, recA, engine)
+
+        async def call(x):
+            if asyncio.iscoroutine(x):
+                return await x
+            return x
+
+        async def op(it, rec, ev):
+            evs = ev[1] if ev[0] == "burst" else [ev]
+            try:
+                if len(evs) == 1:
+                    await call(it.send(make_event(evs[0])))
+                else:
+                    await call(it.send_events([make_event(e) for e in evs]))
+            except Exception as exc:
+                rec.log.append(("err", err_code(exc)))
+            if engine == "async":
+                await quiesce(it)
+
+        def snapq(it):
+            return list(it._event_queue) if engine == "sync" else list(getattr(it._event_queue, "_queue", []))
+        try:
+            await call(A.start())
+        except Exception as exc:
+            recA.log.append(("err", err_code(exc)))
+        if engine == "async":
+            await quiesce(A)
+        for ev in events[:k]:
+            await op(A, recA, ev)
+        text = A.get_snapshot()
+        try:
+            d = _json.loads(text)
+        except Exception as exc:
+            problems.append("get_snapshot() is not valid JSON: %r" % exc)
+            return
+        persisted = A.get_persisted_snapshot()
+        kept = copy.deepcopy(persisted)
+        out["restored"].append(flat_snapshot_dict(am, d))
+        # restore into a fresh interpreter over a freshly built machine
+        mB = create_machine(am.to_config(), logic=build_logic(am, recB, engine))
+        index_transitions(am, mB, recB)
+        detach_log_handler(hA)
+        hB = attach_log_handler(recB)
+        try:
+            try:
+                B = cls.from_snapshot(text, mB)
+            except Exception as exc:
+                out["restored"].append([TS("restore-error")])
+                problems.append("from_snapshot rejected a snapshot the library itself produced: %r" % exc)
+                return
+            re = B.get_persisted_snapshot()
+            if _json.dumps(re, sort_keys=True, default=str) != _json.dumps(kept, sort_keys=True, default=str):
+                problems.append("re-snapshotting the restored interpreter does not reproduce the snapshot: %s vs %s"
+                                % (_json.dumps(re, sort_keys=True, default=str)[:300], _json.dumps(kept, sort_keys=True, default=str)[:300]))
+            if B.context != d.get("context"):
+                problems.append("restored context %r differs from the snapshot's %r" % (B.context, d.get("context")))
+            instrument(B, recB, engine)
+            if engine == "async":
+                await B.start()
+                await quiesce(B)
+            out["restored"].append(flat_state(am, B, recB, snapq(B)))
+            nA = len(recA.log)
+            out["original"].append(flat_state(am, A, recA, snapq(A)))
+            # (one log handler at a time: the library's ERROR records do not say which interpreter emitted them)
+            for ev in events[k:]:
+                await op(B, recB, ev)
+                out["restored"].append(flat_state(am, B, recB, snapq(B)))
+            detach_log_handler(hB)
+            hA2 = attach_log_handler(recA)
+            try:
+                for ev in events[k:]:
+                    await op(A, recA, ev)
+                    out["original"].append(flat_state(am, A, recA, snapq(A)))
+            finally:
+                detach_log_handler(hA2)
+            out["orig_log_offset"] = nA
+            if _json.dumps(persisted, sort_keys=True, default=str) != _json.dumps(kept, sort_keys=True, default=str):
+                problems.append("the snapshot object changed when the interpreter it was taken from kept running")
+            for it in (A, B):
+                try:
+                    await call(it.stop())
+                except Exception:
+                    pass
+        finally:
+            detach_log_handler(hB)
+            logging.disable(logging.WARNING)
+
+    loop = VLoop()
+    loop.set_exception_handler(lambda *a: None)
+    try:
+        try:
+            with_timeout(6, lambda: loop.run_until_complete(amain()))
+        except Timeout:
+            out["restored"].append([TS("TIMEOUT")])
+    finally:
+        signal.setitimer(signal.ITIMER_REAL, 0, 0)
+        try:
+            loop.close()
+        except BaseException:
+            pass
+        detach_log_handler(hA)
+    return out
